@@ -370,3 +370,37 @@ pub fn mut_slice_write_vectored_counts() {
     let mut i = 0;
     while i < room { assert!(backing[i] == src[i]); i += 1; }
 }
+
+/// [u8]::read_vectored_at with a ZERO-CAPACITY member in front of one with room: an empty member is not the end of the data
+/// (seeded change C11-r7-1: the member loop stopped on "this member took nothing")
+#[kani::proof]
+#[kani::unwind(8)]
+pub fn slice_read_vectored_at_empty_member_first() {
+    let data: [u8; 3] = kani::any();
+    let bufs = [vec_cap(0, &[]), vec_cap(2, &[]), vec_cap(0, &[]), vec_cap(1, &[])];
+    let BufResult(r, b) = run(data[..].read_vectored_at(bufs, 0));
+    assert!(forget_err(r) == Some(3), "a zero-capacity member was taken for the end of the data");
+    assert!(b[1].len() == 2 && b[1][0] == data[0] && b[1][1] == data[1] && b[3].len() == 1 && b[3][0] == data[2]);
+}
+
+/// BufWriter: scalar writes that leave the buffer exactly full, then a vectored write — the vectored write must make progress
+/// on a healthy sink (seeded change C11-r7-4: the flush before it was dropped on both sides) and nothing is lost or doubled
+#[kani::proof]
+#[kani::unwind(10)]
+pub fn bufwriter_full_then_write_vectored() {
+    let a: [u8; 4] = kani::any();
+    let b: [u8; 2] = kani::any();
+    let mut sink: Vec<u8> = Vec::with_capacity(16);
+    {
+        let mut w = BufWriter::with_capacity(4, &mut sink);
+        let BufResult(r, _) = run(w.write(vec_cap(4, &a)));
+        assert!(forget_err(r) == Some(4));
+        let BufResult(r, _) = run(w.write_vectored([vec_cap(2, &b)]));
+        let n = match forget_err(r) { Some(n) => n, None => { assert!(false); 0 } };
+        assert!(n > 0, "write_vectored answered Ok(0) on a healthy sink although there was data to write");
+        let r = run(w.flush());
+        assert!(forget_err(r).is_some());
+        let _ = n;
+    }
+    assert!(sink.len() >= 5 && sink[0] == a[0] && sink[3] == a[3] && sink[4] == b[0]);
+}
